@@ -8,6 +8,7 @@ import (
 	"math/rand"
 	"runtime"
 	"sync"
+	"sync/atomic"
 	"unsafe"
 
 	"github.com/cloudwego/gopkg/bufiox"
@@ -721,5 +722,146 @@ func monC14(c *drv.Ctx) {
 		cs.Desc = M{"G": g.G, "GOMAXPROCS": g.P, "iterations_per_goroutine": g.iters, "flavour": c.Flavour, "pooled_objects_shared": shared}
 		cs.Count(shared > 0, c.Flavour, g.G, g.P, cs.Idx, cs.C.Seed)
 		cs.Sample(cs.Desc)
+	})
+
+	// (2) acquire/release storms: every goroutine does nothing but take one kind of pooled object, use it for one
+	// tiny tagged value and give it back, so that the constructors and Release/Recycle themselves run against each
+	// other all the time. Besides the content checks an ownership monitor watches the objects: between leaving a
+	// constructor and being handed to Release/Recycle an object belongs to one goroutine.
+	stormKinds := []string{"ReaderSkipDecoder", "BytesSkipDecoder", "SkipDecoder", "BufferReader", "BufferWriter"}
+	stormIters := 4000
+	if race {
+		stormIters = 700
+	}
+	c.Stage("acquire-release-storms", int64(len(stormKinds))*c.Pick(2, 12), false, func(cs *drv.Case) {
+		kind := int(cs.Idx) % len(stormKinds)
+		G := []int{6, 12, 24}[cs.R.Intn(3)]
+		P := []int{4, 8, 16}[cs.R.Intn(3)]
+		runtime.GOMAXPROCS(P)
+		var owners sync.Map // object address -> *int32 (0 free, g+1 owned by goroutine g)
+		claim := func(p unsafe.Pointer, g int) (*int32, bool) {
+			cell, _ := owners.LoadOrStore(uintptr(p), new(int32))
+			c := cell.(*int32)
+			return c, atomic.CompareAndSwapInt32(c, 0, int32(g+1))
+		}
+		states := make([]*gState, G)
+		var wg sync.WaitGroup
+		start := make(chan struct{})
+		for gi := 0; gi < G; gi++ {
+			st := &gState{g: gi, r: drv.NewRand(cs.R.Int63()), objs: map[uintptr]int{}, cycles: map[string]int{}}
+			states[gi] = st
+			wg.Add(1)
+			go func() {
+				defer wg.Done()
+				defer func() {
+					if r := recover(); r != nil {
+						st.fail("concurrent-panic", -1, "panic: %v", r)
+					}
+				}()
+				<-start
+				for i := 0; i < stormIters && st.failure == nil; i++ {
+					payload := taggedBytes(st.g, i, 0, 1+st.r.Intn(40))
+					enc := ref.EncBinary(nil, payload)
+					var obj unsafe.Pointer
+					var cell *int32
+					own := func(p unsafe.Pointer) bool {
+						obj = p
+						var ok bool
+						if cell, ok = claim(p, st.g); !ok {
+							st.fail("pooled-object-owned-twice", i, "%s %p was handed to this goroutine while goroutine %d had not released it", stormKinds[kind], p, atomic.LoadInt32(cell)-1)
+						}
+						return ok
+					}
+					var out []byte
+					var err error
+					switch kind {
+					case 0:
+						d := thrift.NewReaderSkipDecoder(bytes.NewReader(enc))
+						if !own(unsafe.Pointer(d)) {
+							return
+						}
+						out, err = d.Next(thrift.STRING)
+						out = append([]byte(nil), out...)
+						atomic.StoreInt32(cell, 0)
+						d.Release()
+					case 1:
+						d := thrift.NewBytesSkipDecoder(enc)
+						if !own(unsafe.Pointer(d)) {
+							return
+						}
+						out, err = d.Next(thrift.STRING)
+						out = append([]byte(nil), out...)
+						atomic.StoreInt32(cell, 0)
+						d.Release()
+					case 2:
+						d := thrift.NewSkipDecoder(&doubles.NBReader{B: enc})
+						if !own(unsafe.Pointer(d)) {
+							return
+						}
+						out, err = d.Next(thrift.STRING)
+						out = append([]byte(nil), out...)
+						atomic.StoreInt32(cell, 0)
+						d.Release()
+					case 3:
+						br := thrift.NewBufferReader(&doubles.NBReader{B: enc})
+						if !own(unsafe.Pointer(br)) {
+							return
+						}
+						var v []byte
+						v, err = br.ReadBinary()
+						out = ref.EncBinary(nil, v)
+						if err == nil && br.Readn() != int64(len(enc)) {
+							st.fail("concurrent-stream-bytes", i, "BufferReader fresh from the pool reports %d bytes read after a %d-byte value", br.Readn(), len(enc))
+						}
+						atomic.StoreInt32(cell, 0)
+						br.Recycle()
+					default:
+						sink := &doubles.Sink{}
+						dw := bufiox.NewDefaultWriter(sink)
+						bw := thrift.NewBufferWriter(dw)
+						if !own(unsafe.Pointer(bw)) {
+							return
+						}
+						err = bw.WriteBinary(payload)
+						atomic.StoreInt32(cell, 0)
+						bw.Recycle()
+						dw.Flush()
+						out = sink.All()
+					}
+					st.seen(obj)
+					if err != nil || !bytes.Equal(out, enc) {
+						st.fail("concurrent-stream-bytes", i, "%s: the value of this goroutine came back as %d bytes (err=%v, first diff %d of %d)", stormKinds[kind], len(out), err, firstDiff(out, enc), len(enc))
+					}
+					st.cycles["storm "+stormKinds[kind]]++
+				}
+			}()
+		}
+		close(start)
+		wg.Wait()
+		ownersSeen := map[uintptr]int{}
+		total := 0
+		for _, st := range states {
+			for p := range st.objs {
+				ownersSeen[p]++
+			}
+			for _, v := range st.cycles {
+				total += v
+			}
+			if st.failure != nil {
+				d := st.failure.detail
+				d["G"], d["GOMAXPROCS"], d["kind"] = G, P, stormKinds[kind]
+				cs.Fail(st.failure.check, M{"kind": stormKinds[kind]}, d)
+			}
+		}
+		shared := 0
+		for _, n := range ownersSeen {
+			if n >= 2 {
+				shared++
+			}
+		}
+		cs.C.Obs("storm cycles "+stormKinds[kind], int64(total))
+		cs.C.Obs("storm: pooled objects used by >= 2 goroutines", int64(shared))
+		cs.Desc = M{"kind": stormKinds[kind], "G": G, "GOMAXPROCS": P, "iterations_per_goroutine": stormIters, "flavour": c.Flavour, "pooled_objects_shared": shared}
+		cs.Count(shared > 0, "storm", c.Flavour, kind, G, P, cs.Idx, cs.C.Seed)
 	})
 }
